@@ -27,7 +27,7 @@ FullNodes ==
     NK("Template", "a", "b"), NK("Template", "factor", "a"),
     N0("SliceMul"), NC("SliceMul", "factor", 4), N0("SliceMulDef"),
     NK("SliceProbe", "a", ""), NK("SliceProbe", "factor", ""), N0("Sum"),
-    N0("Sink"), N0("CtxW"), N0("CtxWBad"), N0("Boom"),
+    N0("Sink"), N0("CtxW"), N0("CtxWBad"), N0("Boom"), N0("Abort"),
     NS("SweepSrc", <<1, 2>>), NS("SweepMul", <<2, 3>>), NK("SweepSrcCtx", "a", ""),
     WithBogus(NC("Mul", "factor", 4)), WithBogus(N0("Sq")), WithBogus(NK("Rename", "a", "b")) }
 
@@ -42,6 +42,6 @@ CtxNodes ==    \* context processors
   { N0("Src0"), NK("Rename", "a", "b"), NK("Rename", "b", "a"), NK("Delete", "a", ""),
     NK("Template", "a", "b"), NK("Probe", "a", ""), N0("CtxW"), NK("Rename", "w", "a") }
 FailNodes ==   \* failures
-  { N0("Src0"), N0("CtxWBad"), N0("Boom"), N0("Mul"), N0("Src"), N0("Sink"), N0("Sum"),
+  { N0("Src0"), N0("CtxWBad"), N0("Boom"), N0("Abort"), N0("Mul"), N0("Src"), N0("Sink"), N0("Sum"),
     NK("Probe", "", ""), WithBogus(N0("Sq")), N0("Sq") }
 =============================================================================
